@@ -18,3 +18,4 @@ reg("C09", "exploration", [P("xform", "algebra")])
 reg("C08", "exploration", [P("xform", "proj")])
 reg("C04", "exploration", [P("rast", "cover")])
 reg("C05", "exploration", [P("rast", "interp")])
+reg("C03", "exploration", [P("clip", "all")])
